@@ -39,14 +39,32 @@ def types(kind="distinct"):
     return _TYPES[kind]
 
 
+def eq_class(kind):
+    """'twins': listeners 0 and 1 are two objects that compare equal (value
+    equality, same hash); the producer treats equal listeners as one
+    subscriber (duplicate subscriptions are ignored, unsubscribing removes
+    the subscribed one)"""
+    if kind == "twins":
+        return lambda i: 0 if i in (0, 1) else i
+    return lambda i: i
+
+
 def make_world(NL, kind="distinct"):
     from pydsol.core.pubsub import EventListener, EventProducer
-    T = types(kind)
+    T = types("distinct" if kind == "twins" else kind)
+    ec = eq_class(kind)
 
     class Lst(EventListener):
         def __init__(self, i, world):
             self.i = i
             self.w = world
+
+        def __eq__(self, other):
+            return isinstance(other, Lst) and ec(other.i) == ec(self.i) \
+                and other.w is self.w
+
+        def __hash__(self):
+            return hash(("C08", ec(self.i)))
 
         def notify(self, e):
             w = self.w
@@ -84,11 +102,13 @@ def make_world(NL, kind="distinct"):
                 p.fire(T[op[1]], op[2])
             elif k == "firet":
                 p.fire_timed(op[2], T[op[1]], "c")
+    World.ec = staticmethod(ec)
     return World
 
 
 class Ref:
-    def __init__(self, NT):
+    def __init__(self, NT, ec=None):
+        self.ec = ec or (lambda i: i)
         self.NT = NT
         self.d = {t: [] for t in range(NT)}
         self.log = []
@@ -97,19 +117,29 @@ class Ref:
 
     def apply(self, op):
         k = op[0]
+        ec = self.ec
+
+        def first_equal(lst, l):
+            for x in lst:
+                if ec(x) == ec(l):
+                    return x
+            return None
         if k == "add":
-            if op[2] not in self.d[op[1]]:
+            if first_equal(self.d[op[1]], op[2]) is None:
                 self.d[op[1]].append(op[2])
         elif k == "rem":
-            if op[2] in self.d[op[1]]:
-                self.d[op[1]].remove(op[2])
+            x = first_equal(self.d[op[1]], op[2])
+            if x is not None:
+                self.d[op[1]].remove(x)
         elif k == "ra":
             ts = range(self.NT) if op[1] is None else [op[1]]
             for t in ts:
                 if op[2] is None:
                     self.d[t] = []
-                elif op[2] in self.d[t]:
-                    self.d[t].remove(op[2])
+                else:
+                    x = first_equal(self.d[t], op[2])
+                    if x is not None:
+                        self.d[t].remove(x)
         elif k in ("fire", "firet"):
             snap = list(self.d[op[1]])
             for l in snap:
@@ -157,7 +187,7 @@ def alphabet(NT, NL, sub_types, rich):
 
 def replay_hist(World, NT, hist):
     w = World()
-    r = Ref(NT)
+    r = Ref(NT, getattr(World, "ec", None))
     for op, script in hist:
         w.script = script
         r.script = script
@@ -197,7 +227,7 @@ def bfs(task):
     kind = task[5] if len(task) > 5 else "distinct"
     World = make_world(NL, kind)
     alpha = alphabet(NT, NL, sub_types, rich)
-    r0 = Ref(NT)
+    r0 = Ref(NT, eq_class(kind))
     seen = {r0.canon(): []}
     frontier = collections.deque([[]])
     trans = 0
@@ -436,7 +466,9 @@ def run(ctx):
              ("2 same-named types declared in different places x 3 "
               "listeners", 2, 3, [0, 1], False, "samename"),
              ("1 subscribed type x 5 listeners (+1 type for nested fires)",
-              2, 5, [0], False)]
+              2, 5, [0], False),
+             ("2 types x 3 listeners of which two compare equal", 2, 3,
+              [0, 1], False, "twins")]
     if not quick:
         tasks += [("2 types x 3 listeners, two scripted listeners",
                    2, 3, [0, 1], True),
